@@ -451,3 +451,105 @@ pub fn t6() -> Corpus {
     }
     Corpus::from_list("T6", list)
 }
+
+/// one-hole contexts over the constructs of the structural grammar; in every context the hole is a position that is
+/// actually evaluated (conditions are chosen so that the arm holding the hole is the selected one)
+fn contexts() -> Vec<Box<dyn Fn(E) -> E>> {
+    let mut v: Vec<Box<dyn Fn(E) -> E>> = vec![];
+    for o in [BinOp::Add, BinOp::Lt, BinOp::Eq, BinOp::And, BinOp::Or, BinOp::Pair] {
+        v.push(Box::new(move |h| E::Bin(o, b(h), b(E::Int(1)))));
+        v.push(Box::new(move |h| E::Bin(o, b(E::Int(1)), b(h))));
+    }
+    v.push(Box::new(|h| E::Bin(BinOp::Or, b(E::False), b(h))));
+    v.push(Box::new(|h| E::Bin(BinOp::Access, b(h), b(E::Int(0)))));
+    v.push(Box::new(|h| E::Pre(PreOp::Opp, b(h))));
+    v.push(Box::new(|h| E::Pre(PreOp::Not, b(h))));
+    v.push(Box::new(|h| E::Suf(SufOp::LenInt, b(h))));
+    v.push(Box::new(|h| E::Group(b(h))));
+    v.push(Box::new(|h| E::SpaceList(vec![h, E::Int(1)])));
+    v.push(Box::new(|h| E::SpaceList(vec![E::Int(1), h])));
+    v.push(Box::new(|h| E::CommaList(vec![h, E::Int(1)])));
+    v.push(Box::new(|h| E::CommaList(vec![E::Int(1), h])));
+    v.push(Box::new(|h| E::CommaList(vec![h])));
+    for k in [CondKind::IfTrue, CondKind::IfFalse] {
+        let (taken, not_taken) = if k == CondKind::IfTrue { (E::True, E::Unit) } else { (E::Unit, E::True) };
+        let (t1, t2, n1) = (taken.clone(), taken.clone(), not_taken.clone());
+        v.push(Box::new(move |h| E::Cond(vec![(k, h, E::Int(1))], None)));
+        v.push(Box::new(move |h| E::Cond(vec![(k, t1.clone(), h)], None)));
+        v.push(Box::new(move |h| E::Cond(vec![(k, h, E::Int(1))], Some(b(E::Int(2))))));
+        v.push(Box::new(move |h| E::Cond(vec![(k, t2.clone(), h)], Some(b(E::Int(2))))));
+        v.push(Box::new(move |h| E::Cond(vec![(k, n1.clone(), E::Int(1))], Some(b(h)))));
+    }
+    v.push(Box::new(|h| E::Cond(vec![(CondKind::IfTrue, E::Unit, E::Int(1)), (CondKind::IfTrue, h, E::Int(2))], Some(b(E::Int(3))))));
+    v.push(Box::new(|h| E::Cond(vec![(CondKind::IfTrue, E::Unit, E::Int(1)), (CondKind::IfFalse, E::Unit, h)], Some(b(E::Int(3))))));
+    v.push(Box::new(|h| E::SideAfter(b(h), b(E::Int(1)))));
+    v.push(Box::new(|h| E::SideAfter(b(E::Int(1)), b(h))));
+    v.push(Box::new(|h| E::SideBefore(b(h), b(E::Int(1)))));
+    v.push(Box::new(|h| E::Bin(BinOp::Apply, b(E::Nested(0, b(h))), b(E::Int(5)))));
+    v.push(Box::new(|h| E::Bin(BinOp::Apply, b(E::Nested(0, b(E::Bin(BinOp::Add, b(E::Val), b(E::Int(1)))))), b(h))));
+    v.push(Box::new(|h| E::Bin(BinOp::ApplyTo, b(h), b(E::Nested(0, b(E::Val))))));
+    v.push(Box::new(|h| E::Suf(SufOp::EmptyApply, b(E::Nested(0, b(h))))));
+    v.push(Box::new(|h| E::Bin(BinOp::Semi, b(h), b(E::Val))));
+    v.push(Box::new(|h| E::Bin(BinOp::Semi, b(E::Int(1)), b(h))));
+    v.push(Box::new(|h| {
+        let cond = E::Bin(BinOp::Ge, b(E::Val), b(E::Int(1)));
+        let step = E::Pre(PreOp::Reapply, b(E::Bin(BinOp::Add, b(E::Val), b(E::Int(1)))));
+        E::Bin(BinOp::Apply, b(E::Nested(0, b(E::Cond(vec![(CondKind::IfTrue, cond, h)], Some(b(step)))))), b(E::Int(0)))
+    }));
+    v
+}
+
+/// T7: nesting - every one-hole context inside every one-hole context ... to the given depth, the innermost hole
+/// filled with each atom of the pool: one path of `depth` constructs, atoms everywhere else. Covers the deep
+/// three- and four-construct interactions the size-bounded grammar T3 does not reach.
+pub fn t7(depth: usize, atoms: Vec<E>) -> Corpus {
+    let cx = contexts();
+    let n = cx.len();
+    let mut list = vec![];
+    let total = n.pow(depth as u32);
+    for code in 0..total {
+        for a in &atoms {
+            let mut e = a.clone();
+            let mut c = code;
+            for _ in 0..depth {
+                e = cx[c % n](e);
+                c /= n;
+            }
+            // an else-chain whose last arm is conditional is the recorded C01/C06 finding (covered with its canonical
+            // witness by T3): such programs are left out here
+            if ends_chain_with_conditional(&e) {
+                continue;
+            }
+            let mut k = 1;
+            number_nested(&mut e, &mut k);
+            list.push(e);
+        }
+    }
+    Corpus::from_list("T7", list)
+}
+
+fn ends_chain_with_conditional(e: &E) -> bool {
+    let kids: Vec<&E> = match e {
+        E::Pre(_, x) | E::Suf(_, x) | E::Group(x) | E::Prop(x, _) | E::Nested(_, x) | E::PrefixApply(_, x) | E::SuffixApply(_, x) => vec![x],
+        E::Bin(_, l, r) | E::SideAfter(l, r) | E::SideBefore(l, r) | E::InfixApply(_, l, r) => vec![l, r],
+        E::SpaceList(v) | E::CommaList(v) | E::SeqBlank(v) => v.iter().collect(),
+        E::Cond(arms, d) => {
+            if let Some(d) = d {
+                if matches!(**d, E::Cond(_, None)) {
+                    return true;
+                }
+            }
+            let mut k: Vec<&E> = vec![];
+            for (_, c, a) in arms {
+                k.push(c);
+                k.push(a);
+            }
+            if let Some(d) = d {
+                k.push(d);
+            }
+            k
+        }
+        _ => vec![],
+    };
+    kids.into_iter().any(ends_chain_with_conditional)
+}
